@@ -111,7 +111,8 @@ def collect(outroot="/tmp"):
       dst = os.path.join(VERIF, "seeded", name)
       def load(fn):
         try:
-          return json.load(open(os.path.join(src, fn)))
+          t = open(os.path.join(src, fn)).read()
+          return json.loads(t[:t.rindex("}") + 1])
         except Exception:
           return None
       ver = load("verify.json")
